@@ -68,7 +68,11 @@ def C10():
         "operators / shared classes are only set to ranges whose squared product fits the documented type; elements do not "
         "survive a change of a shared characteristic; inverse of 0 in a field is not compared",
         "small scope: primes <= 1009 plus 5 boundary primes below 2^16; prime ranges with product <= 2310 plus 8 larger ones",
-        "non-default Unsigned_integer_type of the compile-time classes: get_inverse / identities do not compile there, arithmetic only",
+        "non-default Unsigned_integer_type of the compile-time classes (Zp_field_element<p,U>, Multi_field_element_with_small_"
+        "characteristics<a,b,U>): get_inverse, get_partial_inverse, the identities and get_partial_multiplicative_identity do not "
+        "compile there (they name the default-type class), so those families are checked on constructors / conversions, "
+        "+ - * (element and raw operands), == !=, assignment, swap, move, cast and get_characteristic only; the evidence counter "
+        "groups_without_get_inverse_identities_partial(...) counts them",
     ],
     "runs": {
         "quick": [
